@@ -26,6 +26,13 @@ package validation
 //verif:override (*github.com/bytom/bytom/protocol/bc.Hash).String -> verifC13HashString
 //verif:obligation fn=VerifC13BlockTx args=0 mode=int validate=12
 //verif:obligation fn=VerifC13BlockTx args=1 mode=int tier=thorough secs=3000
+//verif:bound gas accounting: a transaction of 2 (thorough: 3) BTM spend inputs and one BTM output, every control program chosen from the menu {OP_1}, {OP_1 OP_1 OP_ADD}, {OP_1 OP_DUP OP_EQUAL}, {OP_1 OP_1 OP_CAT OP_SHA3} (different costs), arbitrary amounts, arbitrary serialized size below 2^32
+//verif:bound block gas limit: a valid coinbase transaction followed by N = 34..40 copies of one such transaction (2 inputs, amounts fixed so that the fee buys the full 300000 gas, programs from the menu, arbitrary serialized size), so that MaxBlockGas = 10^7 is reachable (one transaction can use at most 300000 gas); ValidateBlock itself does not look at repeated transactions
+//verif:assume gas oracle: the gas a control program consumes is what the real vm.Verify consumes when the harness runs that program on its own (limit minus returned gas; the menu programs use no context); storage gas is SerializedSize x consensus.StorageGasRate; the expected GasUsed of a transaction is storage gas plus the sum over its inputs, the expected block total the sum over its transactions
+//verif:obligation fn=VerifC13TxGas args=2 mode=int validate=12
+//verif:obligation fn=VerifC13TxGas args=3 mode=int tier=thorough secs=3000
+//verif:obligation fn=VerifC13BlockGas args=34 mode=int validate=12 secs=900 loops=1000000
+//verif:obligation fn=VerifC13BlockGas args=40 mode=int tier=thorough secs=3000 loops=1000000
 
 import (
 	"time"
@@ -38,6 +45,7 @@ import (
 	"github.com/bytom/bytom/protocol/bc"
 	"github.com/bytom/bytom/protocol/bc/types"
 	"github.com/bytom/bytom/protocol/state"
+	"github.com/bytom/bytom/protocol/vm"
 )
 
 // ---------------------------------------------------------------------------
@@ -368,5 +376,120 @@ func VerifC13BlockTx(kind int) {
 	} else {
 		verifAssert(txErr != nil || b.TransactionsMerkleRoot != root || uint64(gas.GasUsed) > consensus.MaxBlockGas, "valid-block-accepted")
 		verifReach("VerifC13BlockTx:rejected")
+	}
+}
+
+// ---------------------------------------------------------------------------
+// gas accounting against an independent oracle
+
+var verifC13Menu = [][]byte{
+	{0x51},                   // OP_1
+	{0x51, 0x51, 0x93},       // OP_1 OP_1 OP_ADD
+	{0x51, 0x76, 0x87},       // OP_1 OP_DUP OP_EQUAL
+	{0x51, 0x51, 0x7e, 0xaa}, // OP_1 OP_1 OP_CAT OP_SHA3
+}
+
+// the gas a program consumes when run on its own through the real vm.Verify
+func verifC13ProgramCost(prog []byte) int64 {
+	one := uint64(1)
+	const limit = 100000
+	left, err := vm.Verify(&vm.Context{VMVersion: 1, Code: prog, TxVersion: &one}, limit)
+	verifAssert(err == nil, "menu-program-succeeds")
+	return limit - left
+}
+
+// a transaction of n BTM spends into one BTM output; returns the oracle's VM gas (sum over the inputs)
+func verifC13GasTx(n int, amounts []uint64, outAmount uint64, size uint64) (*types.Tx, int64) {
+	var ins []*types.TxInput
+	vmGas := int64(0)
+	for i := 0; i < n; i++ {
+		prog := verifC13Menu[verifChoice("program", len(verifC13Menu))]
+		vmGas += verifC13ProgramCost(prog)
+		src := bc.NewHash(sha3.Sum256([]byte{byte(i)}))
+		ins = append(ins, types.NewSpendInput(nil, src, *consensus.BTMAssetID, amounts[i], uint64(i), prog, nil))
+	}
+	out := types.NewOriginalTxOutput(*consensus.BTMAssetID, outAmount, []byte{0x51}, nil)
+	return types.NewTx(types.TxData{Version: 1, SerializedSize: size, Inputs: ins, Outputs: []*types.TxOutput{out}}), vmGas
+}
+
+// the gas ValidateTx reports as used = storage gas + sum of the per-input program costs
+func VerifC13TxGas(n int) {
+	size := uint64(verifU32("size"))
+	amounts := make([]uint64, n)
+	for i := range amounts {
+		amounts[i] = verifU64("in.amount")
+	}
+	tx, vmGas := verifC13GasTx(n, amounts, verifU64("out.amount"), size)
+	block := &bc.Block{BlockHeader: &bc.BlockHeader{Version: 1, Height: 7}, Transactions: []*bc.Tx{tx.Tx}}
+
+	gas, err := ValidateTx(tx.Tx, block, func(prog []byte) ([]byte, error) { return nil, nil })
+
+	verifObserveBool("accepted", err == nil)
+	if err != nil {
+		verifReach("VerifC13TxGas:rejected")
+		return
+	}
+	verifObserveI64("gasUsed", gas.GasUsed)
+	expected := int64(size)*consensus.StorageGasRate + vmGas
+	verifAssert(gas.GasUsed == expected, "gas-used-is-storage-plus-sum-of-program-costs")
+	verifAssert(gas.StorageGas == int64(size)*consensus.StorageGasRate, "storage-gas-is-size-times-rate")
+	verifReach("VerifC13TxGas:accepted")
+}
+
+// a block whose total gas can cross MaxBlockGas: rejected exactly when the oracle's total exceeds the limit
+func VerifC13BlockGas(n int) {
+	verifC13Clock = int64(verifU64("now.sec"))
+	verifAssume(verifC13Clock >= 10 && verifC13Clock < 1<<33)
+	now := uint64(time.Now().UnixNano() / 1e6)
+	prvs := []chainkd.XPrv{chainkd.XPrv(verifC13Unhex(verifC13Prv0)), chainkd.XPrv(verifC13Unhex(verifC13Prv1))}
+	fed := []chainkd.XPub{chainkd.XPub(verifC13Unhex(verifC13Pub0)), chainkd.XPub(verifC13Unhex(verifC13Pub1))}
+	consensus.ActiveNetParams.FederationXpubs = fed
+	interval := consensus.ActiveNetParams.BlockTimeInterval
+	height := uint64(7)
+	parent := &types.BlockHeader{Version: 1, Height: height - 1, Timestamp: now - interval}
+	cp := &state.Checkpoint{Status: state.Growing, Timestamp: now - interval, Rewards: map[string]uint64{}}
+	coinbase := types.NewTx(types.TxData{
+		Version:        1,
+		SerializedSize: 100,
+		Inputs:         []*types.TxInput{types.NewCoinbaseInput([]byte{1, 2, 3})},
+		Outputs:        []*types.TxOutput{types.NewOriginalTxOutput(*consensus.BTMAssetID, 0, []byte{0x51}, nil)},
+	})
+	size := uint64(verifU32("size"))
+	// fee 10^9: buys the maximum of 300000 gas
+	tx, vmGas := verifC13GasTx(2, []uint64{1000000000, 1000000000}, 1000000000, size)
+	txs := []*types.Tx{coinbase}
+	ids := []*bc.Tx{coinbase.Tx}
+	for i := 0; i < n; i++ {
+		txs = append(txs, tx)
+		ids = append(ids, tx.Tx)
+	}
+	root, _ := types.TxMerkleRoot(ids)
+	b := &types.Block{
+		BlockHeader:  types.BlockHeader{Version: 1, Height: height, PreviousBlockHash: parent.Hash(), Timestamp: now},
+		Transactions: txs,
+	}
+	b.TransactionsMerkleRoot = root
+	msg := b.BlockHeader.Hash().Bytes()
+	b.BlockWitness = prvs[0].Sign(msg)
+	verifAssume(fed[0].Verify(msg, b.BlockWitness) && !fed[1].Verify(msg, b.BlockWitness))
+	conv := func(prog []byte) ([]byte, error) { return nil, nil }
+
+	err := ValidateBlock(b, parent, cp, conv)
+
+	verifObserveBool("accepted", err == nil)
+	// validity of the transaction on its own (its gas figures are not used)
+	_, txErr := ValidateTx(tx.Tx, types.MapBlock(b), conv)
+	perTx := uint64(int64(size)*consensus.StorageGasRate + vmGas)
+	total := uint64(n) * perTx // the coinbase transaction uses no gas
+	if err == nil {
+		verifAssert(txErr == nil, "block-with-invalid-transaction-rejected")
+		verifAssert(total <= consensus.MaxBlockGas, "block-over-gas-limit-rejected")
+		verifReach("VerifC13BlockGas:accepted")
+	} else {
+		verifAssert(txErr != nil || total > consensus.MaxBlockGas, "block-within-gas-limit-accepted")
+		if txErr == nil {
+			verifReach("VerifC13BlockGas:over-limit")
+		}
+		verifReach("VerifC13BlockGas:rejected")
 	}
 }
